@@ -1,4 +1,4 @@
-import DoitModel.Proofs.SelClosure
+import DoitModel.Proofs.SelClosed
 import DoitModel.Proofs.C12Main
 /-! # C12 — from the run model (M1) to the order clause of the selection model (M8) -/
 namespace DoitModel.Sel
@@ -138,5 +138,26 @@ theorem order_reach {ts : List Task} {sel : List Tok} {nm : Run.Name → Tok} {i
   rcases hx with hx | hx
   · rw [e3] at hx; exact hl1 x hx
   · rw [hx, e6]; exact ha
+
+/-- the order clause of C12 (`orderPairsBad`, the clause `Sel.monitor` evaluates) holds of the start order of every
+    reachable state of every serial run of the run model -/
+theorem order_of_run {ts : List Task} {sel : List Tok} {nm : Run.Name → Tok} {inp : Run.RunInput} {s : Run.Sys}
+    (h : Represents ts sel nm inp) (hr : Run.Reach inp s) :
+    orderPairsBad ts sel ((Run.startOrder s).map nm) = [] := by
+  unfold orderPairsBad
+  simp only [List.flatMap_eq_nil_iff, List.filterMap_eq_nil_iff, List.mem_range]
+  intro i hi j _
+  have hmem := getD_mem_take (addNew [] sel) i hi
+  generalize (addNew [] sel).getD i [] = a at *
+  generalize (addNew [] sel).getD j [] = b at *
+  split
+  · next hc =>
+    exfalso
+    simp only [Bool.and_eq_true, decide_eq_true_eq, Bool.not_eq_true'] at hc
+    obtain ⟨⟨⟨⟨_, ha⟩, _⟩, hlt⟩, hnot⟩ := hc
+    have := closure_complete' ts _ b (order_reach h hr i a b hmem (List.contains_iff_mem.1 ha) hlt)
+    rw [List.contains_iff_mem.2 this] at hnot
+    cases hnot
+  · rfl
 
 end DoitModel.Sel
